@@ -79,7 +79,7 @@ template <class C> struct BuildK<C, KIND_SMALL> {
       C::Acc::size(v) = static_cast<S>(s);
       C::Acc::setDyn(v, p);
     }
-    for (unsigned i = 0; i < C::CMAX; ++i) {
+    for (unsigned i = 0; i < (C::CMAX > C::N ? C::CMAX : C::N); ++i) {     // inline states hold up to N elements even when N > CMAX
       if (i >= s) break;
       uint8_t x = nd8(); Elem<E>::construct(p + i, x); m.a[i] = x;
     }
